@@ -6,7 +6,7 @@ from __future__ import annotations
 
 import ast
 
-from ..astq import arg, const, ext_names, handler_classes, inside, is_name, loc, names_in, stmt_of
+from ..astq import arg, canon, const, ext_names, global_names, handler_classes, inside, is_name, loc, names_in, stmt_of
 from ..cfg import CFG
 from ..model import AnalysisError, Func, head, norm
 from . import engine as E
@@ -165,7 +165,11 @@ def rule_error_path_total(ctx, rid):
            "failure handler and kills the worker thread")
     rh = m.one_func("repr_helper", "REPR")
     direct = [c for c in rh.own_calls() if is_name(c.func, "repr") or (isinstance(c.func, ast.Name) and c.func.id == "str" and c.args and not isinstance(c.args[0], ast.Constant))]
-    fvals = [n_ for n_ in rh.own_nodes() if isinstance(n_, ast.FormattedValue) and not (isinstance(n_.value, ast.Call) and is_name(n_.value.func, "compact_repr")) and norm(n_.value) not in ("k",)]
+    kv = set()
+    for n_ in rh.own_nodes():
+        if isinstance(n_, ast.GeneratorExp) and isinstance(n_.generators[0].target, ast.Tuple) and ".items()" in norm(n_.generators[0].iter):
+            kv.add(norm(n_.generators[0].target.elts[0]))
+    fvals = [n_ for n_ in rh.own_nodes() if isinstance(n_, ast.FormattedValue) and not (isinstance(n_.value, ast.Call) and is_name(n_.value.func, "compact_repr")) and norm(n_.value) not in kv]
     ctx.ob(rid, f"{rh.short}/values-through-compact_repr", not direct and not fvals, loc(rh),
            "argument values are formatted through compact_repr only" if not direct and not fvals else
            "repr_helper formats a user value without compact_repr")
@@ -241,12 +245,15 @@ def rule_result_slots(ctx, rid):
         raise AnalysisError("function building the per-run slot table not found")
     f = pf[0]
     dcs = [n for n in f.own_nodes() if isinstance(n, ast.DictComp)]
-    ok1 = any(norm(d.value) == "node if type(node) is Literal else Slot(None)" and "nodes()" in norm(d.generators[0].iter) and not d.generators[0].ifs for d in dcs)
+    keep = global_names(m, f)
+    want1 = canon(["{node: node if type(node) is Literal else Slot(None) for node in plan.graph.nodes()}"], keep)
+    ok1 = any(canon([d], keep) == want1 for d in dcs)
     ctx.ob(rid, f"{f.short}/one-fresh-slot-per-node", ok1, loc(f),
            "slot table: node itself for exact Literal nodes, a fresh Slot(None) for every other node" if ok1 else
            "the per-run slot table is not `{node: node if type(node) is Literal else Slot(None) for every node}`: results are "
            "shared between calls or between overlapping runs of one plan")
-    ok2 = any(any(norm(c) == "type(node) is Call" for gen in d.generators for c in gen.ifs) and "_create_bound_call" in norm(d.value) for d in dcs)
+    ok2 = any(len(d.generators) == 1 and len(d.generators[0].ifs) == 1 and canon([d.generators[0].target, d.generators[0].ifs[0]], keep) == canon(["node", "type(node) is Call"], keep)
+              and "_create_bound_call" in norm(d.value) for d in dcs)
     ctx.ob(rid, f"{f.short}/bound-calls-for-calls-only", ok2, loc(f), "bound calls exist only for exact Call nodes" if ok2 else
            "a non-Call node can get a bound call (its .result.value store would overwrite a Literal)")
     slot = m.one_class("Slot", "SLOT")
